@@ -233,6 +233,8 @@ def tla_val(v):
 def validate_one(scratch, idx, scen, events):
     if not scen["init"]:
         return {"sc": scen["id"], "status": "out-of-scope"}   # Dials.tla models the kernel with at least one watching source
+    if any(e.get("ev") == "config" and not e.get("ok") for e in events):
+        return {"sc": scen["id"], "status": "out-of-scope"}   # Config failed (a failing start): the kernel never ran
     acts = actions_of(events)
     if acts is None:
         return {"sc": scen["id"], "status": "unconvertible"}
